@@ -43,7 +43,7 @@ def gen_world(rng, chans=None, sync_mask=None):
         cfg.add(var(0x2200, i, RW | P, w, v))
         pool.append((0x2200, i, w))
     # mapped objects larger than 4 bytes (the application copies them in CORpdoWriteData)
-    for i, w in enumerate((5, 6, 8)):
+    for i, w in enumerate((5, 6, 8, 257, 260)):       # 257 / 260: sizes whose low byte looks like a basic type
         d = gen.rand_bytes(rng, w)
         objs[(0x2210, i)] = [w, int.from_bytes(d, "little")]
         cfg.add(S.domain(0x2210, i, w, d, flags=RW | P))
@@ -83,7 +83,7 @@ def gen_world(rng, chans=None, sync_mask=None):
                 bits = 8 * w
                 if w == 4 and rng.random() < 0.3:
                     bits = 24
-                if w > 4 and rng.random() < 0.4:
+                if w > 4 and (w > 8 or rng.random() < 0.4):
                     bits = rng.choice([8, 16, 24, 32, 40])       # the leading bytes of a large object only (application's data, mapped length < size)
                     bits = min(bits, 8 * (w - 1))
                 ent = (idx, sub, bits)
